@@ -133,6 +133,19 @@ def sweep(ck, rng, n, stats, directed=False):
                 q["order_by"].append([q["metrics"][0], rng.random() < 0.5])
             q["limit"], q["offset"] = rng.choice([None, 2, 3, 5]), None
             q["aliases"] = []
+        tdims = [d for d in m["dims"] if d["type"] == "time"]
+        if not directed and tdims and rng.random() < 0.35:
+            # a custom alias on a time dimension requested at a granularity (the alias must stay with `dim__gran`, also when
+            # the bare dimension or a second granularity of it is selected next to it)
+            td = rng.choice(tdims)
+            ref = f"{m['name']}.{td['name']}__{rng.choice(S.GRANS)}"
+            if ref not in q["dims"]:
+                q["dims"].append(ref)
+            if rng.random() < 0.5 and f"{m['name']}.{td['name']}" not in q["dims"]:
+                q["dims"].insert(rng.randrange(len(q["dims"]) + 1), f"{m['name']}.{td['name']}")
+            q["aliases"] = [a for a in q["aliases"] if a[0] != ref] + [[ref, "al_" + ref.split(".")[1].replace("__", "_")]]
+            q["order_by"] = [o for o in q["order_by"] if o[0] not in (ref, ref.split(".", 1)[1])]
+            stats["aliased_granular_dimension"] += 1
         if rng.random() < 0.4:
             # a parenthesised OR group AND-ed with other predicates, on data that tells the precedences apart
             mn0 = m["name"]
